@@ -28,8 +28,12 @@ chk("C05", "chansim", "fault_enumeration",
     "Trusted: the harness layout models; they are validated on every run (each library-made symbol must show zero reference syndromes through the harness layout, and reference-made symbols must decode). A control failing outside the RS/BCH layer is skipped and counted, never reported.",
     "fault enumeration on a simulated print-and-scan medium (module flips at placed codeword positions within the ECC budget)", "DESIGN.md section 5, section 7 C05")
 
+chk("C10", "chansim", "fault_enumeration",
+    "Writer side (fault-free): all 2*10^6 UPC-E bodies and 10^6 (quick) / all 10^7 (thorough) EAN-8 bodies through the real writers, the check digit read back off the modules by the reference model must equal the standard's (UPC-E: on the expanded number); wrong supplied check digits must be refused; Code 128 / Code 93 check characters recomputed over the writer's own symbol values. Reader side (fault-injecting): reference-constructed symbols with every single digit / symbol-character substitution, and EAN-2/EAN-5 add-ons under every parity pattern; the reference model decides per faulted symbol whether an error is mandatory. All 2*10^6 UPC-E symbols are also fed to the real reader (expansion decided black-box).",
+    "Trusted: the reference check-digit arithmetic and L/G/R, parity and frozen Code 128 / Code 93 tables (structurally validated at start-up). A valid symbol that is simply not found is C03's matter and only counted.",
+    "fault enumeration on a simulated 1-D bar/space medium (single substitution faults; reference check-digit model as oracle)", "DESIGN.md section 5, section 7 C10")
+
 PENDING.update({
- "C10": "claimed by the design (chansim) but its check is not built yet at this commit",
  "C11": "claimed by the design (chansim) but its check is not built yet at this commit",
  "C17": "claimed by the design (histsim) but its check is not built yet at this commit",
 })
